@@ -155,6 +155,14 @@ def check_C08(tier, seed):
     for i in range(400 if quick else 8000):
         S, has_rt = F.role_shader(rng)
         rc.append({"id": "rrole-%05d" % i, "family": "structs-roles-random", "S": S, "opts": F.opts(enc=True, mv=("rust", "glam")[i % 2])})
+    for l in (3, 13, 14, 15):
+        for via in ("member", "array"):
+            T = F.struct_tower(l, fan=1, via=via)
+            rc.append({"id": "tower-%d-%s" % (l, via), "family": "structs-nesting-depth", "S": T, "opts": F.opts()})
+        T = F.struct_tower(l - 1, fan=1)
+        T["globals"][0]["ty"] = {"k": "rtarray", "e": T["globals"][0]["ty"]}
+        T["globals"][0]["space"] = "storage_r"
+        rc.append({"id": "tower-%d-rt" % l, "family": "structs-nesting-depth", "S": T, "opts": F.opts(enc=True)})
     drive_and_judge(rep, "C08", rc, "roles-random", keep)
     return finish(rep)
 
@@ -207,6 +215,14 @@ def check_C09(tier, seed):
     for i, e in enumerate(sub):
         for j in range(3):
             cases.append({"id": "role-%05d-%d" % (i, j), "family": "roles-x-options", "S": e["S"], "opts": ov[(i * 3 + j * 17) % len(ov)]})
+    huge = {"structs": [{"name": "Huge", "members": [{"name": "m", "ty": {"k": "array", "n": 16385, "e": {"k": "mat", "c": 4, "r": 4, "s": "f32"}}}]},
+                        {"name": "Outer", "members": [{"name": "h", "ty": {"k": "struct", "name": "Huge"}}, {"name": "n", "ty": {"k": "scalar", "s": "u32"}}]},
+                        {"name": "Mib", "members": [{"name": "m", "ty": {"k": "array", "n": 65536, "e": F.VEC4}}]}],
+            "globals": [{"name": "outer", "space": "storage_r", "group": "0", "binding": "0", "ty": {"k": "struct", "name": "Outer"}},
+                        {"name": "mib", "space": "storage_r", "group": "0", "binding": "1", "ty": {"k": "struct", "name": "Mib"}}], "consts": [], "overrides": [], "functions": [],
+            "entries": [{"name": "main", "stage": "compute", "params": [], "body": [{"k": "access", "g": "outer", "how": "addr"}], "wg": ["1"]}]}
+    for j, o_ in enumerate([F.opts(), F.opts(bmh=True), F.opts(enc=True, mv="glam"), F.opts(serde=True, bmv=True)]):
+        cases.append({"id": "huge-%d" % j, "family": "roles-x-options", "S": huge, "opts": o_})
     drive_and_judge(rep, "C09", cases, "roles", keep)
     # full option matrix (16 derive vectors x 3 representations, + validation / formatter variants) on role-rich shaders
     drive_and_judge(rep, "C09", F.option_matrix_cases(rng, 40 if quick else 600, "mat", "option-matrix"), "matrix", keep)
@@ -763,6 +779,9 @@ def check_C10(tier, seed):
         ("attrs-0", [{"name": "a", "ty": F32}, {"name": "b", "ty": F32, "align": 16}, {"name": "c", "ty": F32, "size": 16}, {"name": "d", "ty": V3}, {"name": "e", "ty": F32}]),
         ("attrs-1", [{"name": "a", "ty": V3, "size": 32}, {"name": "b", "ty": F32}]),
         ("f64-0", [{"name": "a", "ty": {"k": "scalar", "s": "f64"}}, {"name": "b", "ty": {"k": "vec", "n": 3, "s": "f64"}}]),
+        ("big-tail", [{"name": "n", "ty": {"k": "scalar", "s": "u32"}}, {"name": "items", "ty": {"k": "array", "n": 70000, "e": F32}}]),
+        ("big-mid", [{"name": "items", "ty": {"k": "array", "n": 65537, "e": {"k": "vec", "n": 4, "s": "f32"}}}, {"name": "n", "ty": {"k": "scalar", "s": "u32"}}]),
+        ("tail-256", [{"name": "n", "ty": {"k": "scalar", "s": "u32"}}, {"name": "items", "ty": {"k": "array", "n": 256, "e": F32}}]),
     ]
     for name, mem in special:
         S = {"structs": [{"name": "Data", "members": mem}], "globals": [{"name": "data", "space": "storage_r", "group": "0", "binding": "0", "ty": {"k": "struct", "name": "Data"}}],
@@ -952,7 +971,7 @@ def check_C04(tier, seed):
     cases = []
     for i, e in enumerate(okseq[:(150 if quick else 3000)]):
         # sparse indices: stretch binding b to a larger, order-preserving or order-reversing index
-        stretch = [lambda b: b, lambda b: 3 * b + 1, lambda b: 9 - 4 * b][i % 3]
+        stretch = [lambda b: b, lambda b: 3 * b + 1, lambda b: 9 - 4 * b, lambda b: 16777216 + b, lambda b: 4294967295 - b][i % 5]
         decls = [{"g": d["g"], "b": stretch(d["b"])} for d in e["decls"]]
         S = F.bgd_shader(decls, use=True, tys=[kinds[(i + j) % len(kinds)] for j in range(len(decls))])
         for j, g in enumerate(S["globals"]):
@@ -1127,7 +1146,7 @@ def check_C16(tier, seed):
         cases.append({"id": "src-long-%d" % i, "family": "source-long", "S": F.source_shader(text), "opts": F.opts(rustfmt=(i % 2 == 1))})
     for i, pth in enumerate([" shader.wgsl", "shader.wgsl ", "shader.wgsl\n", "\tshader.wgsl", "\u3000shader.wgsl", "\u00a0x.wgsl\u00a0", " ", "./a/../shader.wgsl", "shader.wgsl\r\n", "", "0", "None",
                               "\\\\?\\C:\\shaders\\a.wgsl", "\\\\?\\UNC\\srv\\a.wgsl", "\\\\.\\a.wgsl", "C:\\a.wgsl", "file:///a.wgsl", "~/a.wgsl", "$OUT_DIR/a.wgsl", "%TEMP%\\a.wgsl",
-                              "shaders//shader.wgsl", "a/./b.wgsl", "dir/", "dir/.", "/abs//x.wgsl", "a\\b\\c.wgsl", "..\\up.wgsl", "a/b/../../c.wgsl"]):
+                              "shader.wgsl", "a.wgsl", "shaders/main.wgsl", "shaders//shader.wgsl", "a/./b.wgsl", "dir/", "dir/.", "/abs//x.wgsl", "a\\b\\c.wgsl", "..\\up.wgsl", "a/b/../../c.wgsl"]):
         cases.append({"id": "src-path-%d" % i, "family": "source-include-paths", "S": F.source_shader("p"), "opts": F.opts(include=pth)})
         cases.append({"id": "src-path-%d-emb" % i, "family": "source-include-paths", "S": F.source_shader("p"), "opts": F.opts()})
     for i, pre in enumerate(["\ufeff", "\ufeff\ufeff", "\u200b", "\u2060", "\ufffe", "\x00", "\ufeff\n"]):
